@@ -142,7 +142,7 @@ impl Prop for C03 {
     fn strategy(&self, tier: Tier) -> Option<(BoxedStrategy<Case>, u32)> {
         let cfg = GenCfg { avoid_quoted_logs: AVOID_QUOTED_LOG_STRINGS, avoid_calls_in_warn: AVOID_CALLS_IN_WARN, avoid_space_splat: AVOID_SPACE_SPLAT, avoid_calls_in_named: AVOID_CALLS_IN_NAMED, ..GenCfg::default() };
         let s = program_strategy(cfg).prop_map(|program| Case { program }).boxed();
-        Some((s, tier.pick(2_000, 60_000)))
+        Some((s, tier.pick(12_000, 120_000)))
     }
     fn check(&self, case: &Case, cx: &mut Ctx) -> Verdict {
         let printed = print_scss(&case.program);
